@@ -60,7 +60,6 @@ pub open spec fn cap_of(c: Option<usize>) -> Option<nat> { match c { Some(n) => 
 #[verifier::external_body] pub struct OutputStyleValidationError { _p: () }
 #[verifier::external_body] pub struct SelectionParseError { _p: () }
 #[verifier::external_body] pub struct SorterParserError { _p: () }
-#[verifier::external_body] pub struct PreSetParserError { _p: () }
 #[verifier::external_body] pub struct MainError { _p: () }
 pub type Result<T> = std::result::Result<T, MainError>;
 impl From<OutputStyleValidationError> for MainError { #[verifier::external_body] fn from(e: OutputStyleValidationError) -> Self { unimplemented!() } }
@@ -189,24 +188,17 @@ impl Uniquness {
 //@@ endfn
 }
 
-// --set: ASSUMED contract (PreSetCollection::create_process is not under contract yet): some fixed variables/macros
-pub trait PreSetCollection {
-    fn create_process(&self, next: Box<dyn Process>) -> (r: std::result::Result<Box<dyn Process>, PreSetParserError>)
-        requires next.inv(),
-        ensures r is Ok ==> r->Ok_0.inv() && r->Ok_0.log() == next.log() && r->Ok_0.must_break() == next.must_break()
-            && exists|v: Map<String, JsonValue>, m: Map<String, Rc<dyn Get>>| #[trigger] is_preset_of(r->Ok_0, next, self.is_empty_spec(), v, m);
-    spec fn is_empty_spec(&self) -> bool;
+// --set: ASSUMED here, proved in unit STAGE (same contract text: prelude/preset_trait.rs)
+pub mod ps {
+use super::*;
+use std::result::Result;
+//@@ include prelude/preset_trait.rs
 }
-pub open spec fn is_preset_of(r: Box<dyn Process>, next: Box<dyn Process>, none: bool, v: Map<String, JsonValue>, m: Map<String, Rc<dyn Get>>) -> bool {
-    forall|rows: Seq<Context>| #[trigger] r.fut(rows) == next.fut(presets(none, v, m, rows))
-}
-pub open spec fn presets(none: bool, v: Map<String, JsonValue>, m: Map<String, Rc<dyn Get>>, rows: Seq<Context>) -> Seq<Context> {
-    if none { rows } else { preset_rows(v, m, rows) }
-}
+use ps::*;
 impl PreSetCollection for Vec<String> {
+    open spec fn texts(&self) -> Seq<String> { self@ }
     #[verifier::external_body]
     fn create_process(&self, next: Box<dyn Process>) -> (r: std::result::Result<Box<dyn Process>, PreSetParserError>) { unimplemented!() }
-    open spec fn is_empty_spec(&self) -> bool { self@.len() == 0 }
 }
 
 // --output-style: ASSUMED here, proved in unit PRINT: the printer is an eager sink
@@ -362,7 +354,7 @@ impl<S: Read> Master<S> {
 //@@ after "process = self.cli.set.create_process(process)?;"
         proof {
             let none = cli.set@.len() == 0;
-            let (v, m) = choose|v: Map<String, JsonValue>, m: Map<String, Rc<dyn Get>>| #[trigger] is_preset_of(process, spl, none, v, m);
+            let v = vars_upto(cli.set@, cli.set@.len() as int); let m = macros_upto(cli.set@, cli.set@.len() as int);
             assert(is_preset_of(process, spl, none, v, m));
             assert forall|rows: Seq<Context>| #[trigger] process.fut(rows) == p0.fut(cli.pipeline(cli.no_set(), v, m, rows)) by {
                 let r1 = presets(none, v, m, rows);
